@@ -4,6 +4,8 @@ import (
 	"fmt"
 	"strings"
 
+	"verif/harness/internal/shim"
+
 	"verif/harness/internal/h"
 )
 
@@ -46,7 +48,7 @@ func seqTail(next int) []opSpec {
 }
 
 func sweepSeq(r *h.Run) {
-	faultKinds := []string{"err", "short", "crash", "crashshort", "shortnil", "silent"}
+	faultKinds := []string{"err", "short", "crash", "crashshort", "shortnil", "silent", "closelost"}
 	group := 0
 	for _, kind := range []string{"mutable", "immutable"} {
 		for nh := 0; nh <= 2; nh++ {
@@ -74,13 +76,21 @@ func sweepSeq(r *h.Run) {
 						if (fk == "short" || fk == "crashshort" || fk == "shortnil" || fk == "silent") && tr.Name != "f.Write" {
 							continue
 						}
+						// closelost: the first Close of a handle through which something was written
+						if fk == "closelost" && !closesWrittenHandle(obs[len(obs)-1].trace, k) {
+							continue
+						}
 						// silent corruption: only where the hash-verified transfer is in charge (upload to the entry, download to
 						// the temporary copy); a lying LOCAL disk under the zip writer or the unpacker is outside any guarantee
 						if fk == "silent" && !(remote || (target == "fetch" && strings.HasPrefix(tr.Path, "/tmp/"))) {
 							continue
 						}
-						// quick tier: every operation on the remote entry; a seeded quarter of the purely local ones
-						if !remote && !r.Thorough() && !r.Deep && (k+fi+int(r.Seed))%4 != 0 {
+						// quick tier: every operation on the remote entry; a seeded seventh of the purely local ones (half of them for the write-specific faults)
+						thin := 7
+						if fk != "err" && fk != "crash" {
+							thin = 2 // the faults specific to writes have few candidates
+						}
+						if !remote && fk != "closelost" && !r.Thorough() && !r.Deep && (k+fi+int(r.Seed))%thin != 0 {
 							continue
 						}
 						f := &faultSpec{K: k, Kind: fk}
@@ -104,6 +114,27 @@ func sweepSeq(r *h.Run) {
 			}
 		}
 	}
+}
+
+// closesWrittenHandle: operation k is an f.Close and, since the file was last opened, something was written to it and it
+// has not been closed yet.
+func closesWrittenHandle(trace []shim.Op, k int) bool {
+	if trace[k].Name != "f.Close" {
+		return false
+	}
+	for j := k - 1; j >= 0; j-- {
+		t := trace[j]
+		if t.Path != trace[k].Path {
+			continue
+		}
+		switch t.Name {
+		case "f.Write":
+			return true
+		case "f.Close", "Create", "OpenFile", "Open":
+			return false
+		}
+	}
+	return false
 }
 
 func pathClass(p string) string {
